@@ -3,6 +3,7 @@
   (helper lemmas live in YV/Proofs/XEval.lean)
 -/
 import YV.Proofs.XEval
+import YV.Proofs.XCmp
 import YV.Spec.XSem
 import YV.Model.XTables
 import YV.Gen.XPath
@@ -22,6 +23,39 @@ theorem C01_machine_eq_tree (env : Env) (e : Expr) (hw : WellFormed e) :
 /-- the function table of the source (names, arities, argument kinds, return kinds) is the one the
     model's `Fn.sig` and `WellFormed` range over — regenerated from xpath/symbol.go on every run -/
 theorem C01_fn_table : Gen.fnTable = XT.fnTableSorted := by decide
+
+/-- string → number (datum.go numberFromString) reads exactly the §4.4 grammar
+    `Number ::= Digits ('.' Digits?)? | '.' Digits` with optional minus and surrounding XPath whitespace —
+    in the variant that also reads the two spelled infinities (`numOfStr true`; the open finding
+    C01-number-of-Infinity-string is exactly the difference between `numOfStr true` and `numOfStr false`) -/
+theorem C01_number_of_string (s : Str) : numberFromString s = numOfStr true s := numberFromString_eq s
+
+/-- every comparison (`= != < <= > >=`) of every pair of operands — scalars of any kind, absent nodes,
+    single leaves, multi-valued leaf-lists — is the §3.4 comparison of the specification: booleans win over
+    numbers win over strings for (in)equality, numbers for the relational operators, and a node-set
+    compares existentially over the string-values of its nodes -/
+theorem C01_compare (op : BinOp) (hop : cmpOp op = true) (a b : Datum)
+    (ha : a ≠ .invalid) (hb : b ≠ .invalid) :
+    X.compare op a b = .ok (cmp true op (ofDatum a) (ofDatum b)) := compare_spec op hop a b ha hb
+
+/-- an absent node is false in every comparison, on either side, against anything -/
+theorem C01_absent_false (op : BinOp) (hop : cmpOp op = true) (b : Datum) (hb : b ≠ .invalid) :
+    X.compare op .emptyNodeset b = .ok false ∧ X.compare op b .emptyNodeset = .ok false := by
+  constructor
+  · rw [compare_spec op hop _ b (by simp) hb]; simp [ofDatum, cmp]
+  · rw [compare_spec op hop b _ hb (by simp)]
+    cases b <;> simp [ofDatum, cmp]
+    rename_i ds; cases ds <;> simp [cmp]
+
+/-- a multi-valued leaf-list compares existentially: against a string or number operand the result is
+    true iff some entry compares true -/
+theorem C01_existential (op : BinOp) (hop : cmpOp op = true) (entries : List Str) (t : Str) :
+    X.compare op (.slice entries) (.lit t) = .ok (entries.any fun s => cmpScalar true op (.str s) (.str t)) := by
+  rw [compare_spec op hop _ _ (by simp) (by simp)]
+  cases entries <;> simp [ofDatum, cmp]
+
+example : X.compare .eq (.slice ["a".toList, "b".toList]) (.lit "b".toList) = .ok true := by
+  rw [C01_existential .eq rfl]; simp [cmpScalar, isRel, stringOf]
 
 /-- non-vacuity: a nested, well-formed expression -/
 example : WellFormed (.call .substring [.lit "12345".toList, .bin .div (.num SF.one) (.num SF.zero), .neg (.env 0)]) := by
